@@ -26,6 +26,12 @@ func runReadersVsCompactions(c *Ctx) error {
 	if c.N >= 1000 {
 		dur = 20 * time.Second
 	}
+	if v := os.Getenv("VERIF_STRESS_SECONDS"); v != "" {
+		var n int
+		if _, err := fmt.Sscanf(v, "%d", &n); err == nil && n > 0 {
+			dur = time.Duration(n) * time.Second
+		}
+	}
 	dir := filepath.Join(os.Getenv("VERIF_SCRATCH_DIR"), "readers_vs_compactions")
 	os.RemoveAll(dir)
 	defer os.RemoveAll(dir)
